@@ -495,31 +495,53 @@ func (w *Wire) waitOrDeadlock(pred func() bool) string {
 // the server waits for it" from "a callback sits on a gate while the command
 // loop is still busy".
 func allParked() bool {
-	var live []string
-	for _, g := range ServerGoroutines() {
-		if !knownLeaked[goroutineID(g)] {
-			live = append(live, g)
-		}
-	}
-	if len(live) == 0 {
-		return false
-	}
-	for _, g := range live {
-		head := g
-		if i := strings.IndexByte(g, '\n'); i >= 0 {
-			head = g[:i]
-		}
-		parked := false
-		for _, st := range []string{"chan receive", "chan send", "select", "sync.Cond.Wait", "sync.WaitGroup.Wait"} {
-			if strings.Contains(head, st) {
+	snap := func() (mutexWaiters []string, ok bool) {
+		n := 0
+		for _, g := range ServerGoroutines() {
+			if knownLeaked[goroutineID(g)] {
+				continue
+			}
+			n++
+			head := g
+			if i := strings.IndexByte(g, '\n'); i >= 0 {
+				head = g[:i]
+			}
+			if strings.Contains(g, "sync.(*Mutex).Lock") {
+				// may be transient (the in-memory network's lock) or lasting
+				// (a lock held by someone who waits for a gate): decided by
+				// a second look
+				mutexWaiters = append(mutexWaiters, goroutineID(g))
+				continue
+			}
+			parked := false
+			for _, st := range []string{"chan receive", "chan send", "select", "sync.Cond.Wait", "sync.WaitGroup.Wait"} {
+				if strings.Contains(head, st) {
+					parked = true
+				}
+			}
+			if strings.Contains(head, "semacquire") && strings.Contains(g, "sync.(*WaitGroup).Wait") {
 				parked = true
 			}
+			if !parked {
+				return nil, false
+			}
 		}
-		if strings.Contains(head, "semacquire") && strings.Contains(g, "sync.(*WaitGroup).Wait") {
-			parked = true
-		}
-		// waiting for a mutex (e.g. the in-memory network's) is transient
-		if !parked || strings.Contains(g, "sync.(*Mutex).Lock") {
+		return mutexWaiters, n > 0
+	}
+	mw, ok := snap()
+	if !ok {
+		return false
+	}
+	if len(mw) == 0 {
+		return true
+	}
+	time.Sleep(2 * time.Millisecond)
+	mw2, ok := snap()
+	if !ok || len(mw2) != len(mw) {
+		return false
+	}
+	for i := range mw {
+		if mw[i] != mw2[i] {
 			return false
 		}
 	}
